@@ -1196,6 +1196,16 @@ bool equalEntities(const EntityPtr &owner, const std::vector<EntityPtr> &entitie
     return true;
 }
 
+ImportSourcePtr clonedImportSource(const ImportSourcePtr &importSource, ImportSourceMap &importSources)
+{
+    auto result = importSources.find(importSource);
+    if (result == importSources.end()) {
+        result = importSources.emplace(importSource, importSource->clone()).first;
+    }
+
+    return result->second;
+}
+
 bool areEqual(const std::string &str1, const std::string &str2)
 {
     return str1 == str2;
